@@ -579,6 +579,27 @@ def _desugar_next_find(stmts):
     return out
 
 
+def _desugar_iter_sentinel(stmts):
+    """for X in iter(F, S): BODY  [else: ELSE]     ->     while True: X = F(); if X == S: ELSE; break; BODY"""
+    out = []
+    for s in stmts:
+        for fld in ("body", "orelse", "finalbody"):
+            if isinstance(getattr(s, fld, None), list) and not isinstance(s, (ast.FunctionDef, ast.ClassDef)):
+                setattr(s, fld, _desugar_iter_sentinel(getattr(s, fld)))
+        for hnd in getattr(s, "handlers", []) or []:
+            hnd.body = _desugar_iter_sentinel(hnd.body)
+        if isinstance(s, ast.For) and isinstance(s.target, ast.Name) and isinstance(s.iter, ast.Call) and isinstance(s.iter.func, ast.Name) and s.iter.func.id == "iter" \
+                and len(s.iter.args) == 2 and not s.iter.keywords and isinstance(s.iter.args[1], ast.Constant) and _pure_arg(s.iter.args[0]):
+            f, sent = s.iter.args
+            fetch = ast.copy_location(ast.Assign(targets=[ast.Name(id=s.target.id, ctx=ast.Store())], value=ast.Call(func=f, args=[], keywords=[])), s)
+            stop = ast.copy_location(ast.If(test=ast.Compare(left=ast.Name(id=s.target.id, ctx=ast.Load()), ops=[ast.Eq()], comparators=[sent]),
+                                            body=list(s.orelse) + [ast.copy_location(ast.Break(), s)], orelse=[]), s)
+            out.append(ast.copy_location(ast.While(test=ast.Constant(value=True), body=[fetch, stop] + list(s.body), orelse=[]), s))
+            continue
+        out.append(s)
+    return out
+
+
 def _dispatch_table(mod, name):
     """module-level NAME = {KEY: lambda ...: expr | function name, ...} bound once -> [(key expr, callable expr)]"""
     sts = mod.assigns.get(name, [])
@@ -995,6 +1016,7 @@ def canonical_function(mod, fn, depth=3):
     new.body = _desugar_comprehension_loops(new.body)
     new.body = _desugar_any_all(new.body)
     new.body = _desugar_next_find(new.body)
+    new.body = _desugar_iter_sentinel(new.body)
     new.body = _split_ifexp_calls(new.body)
     new = _propagate_option_flags(new)
     local_names = _assigned_names(new)
